@@ -219,6 +219,24 @@ def run(ctx):
                     for tt in prim:
                         overlay_roots |= set(x for x in Slice(F, b).operand(tt["args"][0]).sources if x[0] in ("upvar", "param")) | \
                             set(("local", l) for l in Slice(F, b).operand(tt["args"][0]).seen if b.local_name(l))
+            # (added after seeded mutant C22-s1) an overlay HIT is final, also when it is a tombstone: between overlay.get(..) and the
+            # base fallback no combinator may turn Some(tombstone) into None (and_then / flatten / filter / and), and the fallback
+            # combinator must not be one that a flattened None falls through (`or_else`/`or` after such a step).
+            tomb_ok = True
+            why_t = ""
+            for (bi, t) in fb:
+                s0 = PSlice(F, b).operand(t["args"][0])
+                steps = [strip_generics(callee_key(tt)).split("::")[-1] for (_x, tt) in s0.call_sites
+                         if re.search(r"option::Option::\w+$", strip_generics(callee_key(tt) or ""))]
+                lossy = [x for x in steps if x in ("and_then", "flatten", "filter", "and", "xor", "take_if", "zip")]
+                if lossy:
+                    tomb_ok = False
+                    why_t = "overlay hit passes through Option::%s before the fallback" % "/".join(sorted(set(lossy)))
+            ctx.check("C22-b", key + "#overlay-hit-is-final", tomb_ok or not fb,
+                      "a key deleted earlier in the chunk (overlay tombstone) is seen as absent, the base map is asked only when the overlay has no entry",
+                      "%s: a key deleted earlier in the same chunk (overlay entry = None) falls through to its PRE-chunk value. History: x exists; one chunk "
+                      "[Delete(x), CAS(x, old -> new)]: the CAS sees the old value and succeeds, resurrecting x; the same commands in two chunks fail the CAS" % why_t,
+                      loc(b, fb[0][0]) if fb else loc(b, entry))
             ctx.check("C22-b", key + "#overlay-before-base", overlay_first and bool(overlay_roots),
                       "the lookup asks the per-chunk overlay first and falls back to the base map",
                       "UNRECOGNISED-FORM / wrong precedence: the current value of the CAS is not `overlay.get(key)` with the base map as fallback",
